@@ -61,7 +61,7 @@ def norm(n):
 
 def compare():
     ga, gb, ogp, mir = graphs()
-    ea = {(norm(a), norm(b)) for a, bs in ga.items() for b in bs if not a.startswith('<')}
+    ea = {(norm(a), norm(b)) for a, bs in ga.items() for b in bs if not a.startswith('<') and not b.startswith('<') and '::<' not in b}
     eb = {(norm(a), norm(b)) for a, bs in gb.items() for b in bs if not a.startswith('<') and not b.startswith('<')}
     only_a = sorted(ea - eb)
     only_b = sorted(eb - ea)
